@@ -148,9 +148,19 @@ func genLifecycle(r *rng) *lcGen {
 	}
 	nDays := 2 + r.intn(5)
 	d := time.Date(2020, 1, 1, 0, 0, 0, 0, time.UTC).AddDate(0, 0, r.intn(300))
+	step := 40
+	if r.chance(25) {
+		// consecutive days across a calendar corner (see genSpan)
+		d, _ = genSpan(r, 0, 0)
+		for !(d.Month() == 12 && d.Day() >= 27 || d.Month() == 2) {
+			d, _ = genSpan(r, 0, 0)
+		}
+		step = 2
+		g.feats["calendar-corner"] = true
+	}
 	for i := 0; i < nDays; i++ {
 		g.dates = append(g.dates, dateStr(d))
-		d = d.AddDate(0, 0, 1+r.intn(40))
+		d = d.AddDate(0, 0, 1+r.intn(step))
 	}
 	for day := 0; day < nDays; day++ {
 		date := g.dates[day]
